@@ -312,6 +312,62 @@ func runC03(c *Ctx) {
 		default:
 			c.Check(len(missing) == 0, "chunk-identity-covers-all-subchunks", construct+"#fields", p.Pos(fieldLoop.Pos()), "subchunk-not-in-identity:"+strings.Join(missing, ","),
 				"sub-chunk fields of storepb.AggrChunk that do not take part in the chunk's identity: "+strings.Join(missing, ", "))
+			// the key accumulator carries no state from the previous chunk: a variable the field loop writes and
+			// that lives longer than one chunk (declared outside the loop over the chunks) must be written
+			// unconditionally for every field — no continue / break, no write under an if.
+			var chunkLoop *ast.RangeStmt
+			ast.Inspect(fn.Body(), func(nd ast.Node) bool {
+				if rs, ok := nd.(*ast.RangeStmt); ok && rs != fieldLoop && rs.Body.Pos() <= fieldLoop.Pos() && fieldLoop.End() <= rs.Body.End() {
+					chunkLoop = rs // innermost enclosing loop: visited last
+				}
+				return true
+			})
+			stale := ""
+			if chunkLoop != nil {
+				skips := false
+				ast.Inspect(fieldLoop.Body, func(nd ast.Node) bool {
+					switch v := nd.(type) {
+					case *ast.FuncLit:
+						return false
+					case *ast.RangeStmt, *ast.ForStmt:
+						return false // a branch statement in there targets the inner loop
+					case *ast.BranchStmt:
+						if v.Tok == token.CONTINUE || v.Tok == token.BREAK || v.Tok == token.GOTO {
+							skips = true
+						}
+					}
+					return true
+				})
+				for _, st := range fieldLoop.Body.List {
+					_, conditional := st.(*ast.IfStmt)
+					ast.Inspect(st, func(nd ast.Node) bool {
+						id, ok := nd.(*ast.Ident)
+						if !ok || stale != "" {
+							return true
+						}
+						v, ok := info.Uses[id].(*types.Var)
+						if !ok || v.IsField() || v.Parent() == nil || v.Parent().Parent() == types.Universe || v == recvObj(fn) {
+							return true
+						}
+						declaredIn := func(n ast.Node) bool { return n.Pos() <= v.Pos() && v.Pos() <= n.End() }
+						if declaredIn(chunkLoop) || declaredIn(fieldLoop) {
+							return true
+						}
+						// a variable that outlives the chunk
+						if _, isArr := v.Type().Underlying().(*types.Array); !isArr {
+							if _, isSl := v.Type().Underlying().(*types.Slice); !isSl {
+								return true
+							}
+						}
+						if skips || conditional {
+							stale = v.Name()
+						}
+						return true
+					})
+				}
+			}
+			c.Check(stale == "", "chunk-identity-covers-all-subchunks", construct+"#key-fresh-per-chunk", p.Pos(fieldLoop.Pos()), "key-keeps-previous-chunk:"+stale,
+				"the key buffer "+stale+" is declared outside the loop over the chunks and is not written for every sub-chunk field (continue / break / conditional write): a slot that is skipped keeps the previous chunk's checksum, so a chunk's identity depends on what was merged before it")
 			// the insertion into the dedup map happens once per chunk, after all fields were visited
 			var insert *ast.AssignStmt
 			ast.Inspect(fn.Body(), func(nd ast.Node) bool {
